@@ -85,13 +85,34 @@ def Forced (s s' : St) (x : Key) : Prop :=
     (hasPending s f = true ∨ ∃ nf nf', s.nodes f = some nf ∧ s'.nodes f = some nf' ∧
       (nf'.value ≠ nf.value ∨ nf'.tfc ≠ nf.tfc))
 
+/-- the recorded keys of a run that reads `ks` in order (first occurrences) -/
+def recordKeys (ks : List Key) (acc : List Key) : List Key :=
+  ks.foldl (fun acc d => if acc.contains d then acc else acc ++ [d]) acc
+
+/-- the firewall set accumulated by a run that reads `ks` in order, `fr d` being the contribution of `d` -/
+def foldTfc (fr : Key → List Key) (ks : List Key) (acc : List Key) : List Key :=
+  ks.foldl (fun acc d => Qbice.Engine.unionSorted (fr d) acc) acc
+
 structure Inv (p : Program) (s : St) : Prop where
   kind : ∀ k n, s.nodes k = some n →
     ∃ d, p[k]? = some d ∧ d.kind = n.kind ∧
       (n.kind = .input ∨ n.kind = .external → n.deps = [] ∧ n.tfc = [])
-  /-- stage 1: a projection has recorded firewalls only -/
-  pjFw : ∀ k n, s.nodes k = some n → n.kind = .projection →
+  /-- class A (`NoProjOverProj`): a projection has recorded firewalls only -/
+  pjFw : NoProjOverProj p → ∀ k n, s.nodes k = some n → n.kind = .projection →
     ∀ d o nd, (d, o) ∈ n.deps → s.nodes d = some nd → nd.kind = .firewall
+  /-- a projection has recorded firewalls and projections only -/
+  pjKinds : ∀ k n, s.nodes k = some n → n.kind = .projection →
+    ∀ d o nd, (d, o) ∈ n.deps → s.nodes d = some nd → nd.kind = .firewall ∨ nd.kind = .projection
+  /-- class B (`StaticProj`): the recorded keys and the firewall set of a projection are those of its
+      static read sequence -/
+  pjStat : StaticProj p → ∀ k n d ks, s.nodes k = some n → p[k]? = some d → n.kind = .projection →
+    ProgStatic d.prog ks → n.deps.map (·.1) = recordKeys ks [] ∧ n.tfc = foldTfc (front s) ks []
+  /-- class B: the fingerprint seen of a projection callee is its (never changing) set -/
+  pjSeen : StaticProj p → ∀ x n g o ng, s.nodes x = some n → (g, o) ∈ n.deps → s.nodes g = some ng →
+    ng.kind = .projection → n.seen g = ng.tfc
+  /-- class B: a projection with a pending backward projection has a callee with one -/
+  pjCause : StaticProj p → ∀ g ng, s.nodes g = some ng → ng.kind = .projection → ng.pendingBP = true →
+    ∃ c o, (c, o) ∈ ng.deps ∧ hasPending s c = true
   /-- I7: a recorded callee of a projection whose stored value is not the observed one has a pending
       backward projection -/
   pjBroken : ∀ k n, s.nodes k = some n → n.kind = .projection →
@@ -290,35 +311,78 @@ theorem settledFw_iff {s : St} {f : Key} :
   | none => simp
   | some n => simp
 
+/-- class B: a projection with a pending backward projection has a pending firewall in its set -/
+theorem Inv.pend_witness {p : Program} {s : St} (inv : Inv p s) (sp : StaticProj p) :
+    ∀ c nc, s.nodes c = some nc → nc.kind = .projection → nc.pendingBP = true →
+      ∃ f nf, f ∈ nc.tfc ∧ s.nodes f = some nf ∧ nf.pendingBP = true := by
+  intro c
+  induction c using Nat.strongRecOn with
+  | _ c ih =>
+    intro nc hc hk hp
+    obtain ⟨d, o, hm, hpd⟩ := inv.pjCause sp c nc hc hk hp
+    obtain ⟨hlt, nd, hnd⟩ := inv.down c nc hc d o hm
+    have hpd' : nd.pendingBP = true := by simpa [hasPending, hnd] using hpd
+    obtain ⟨sfw, spj⟩ := inv.seenSub c nc hc d o nd hm hnd
+    rcases inv.pjKinds c nc hc hk d o nd hm hnd with hkd | hkd
+    · exact ⟨d, nd, sfw hkd, hnd, hpd'⟩
+    · obtain ⟨f, nf, hf, hnf, hpf⟩ := ih d hlt nd hnd hkd hpd'
+      refine ⟨f, nf, spj (Or.inr hkd) f ?_, hnf, hpf⟩
+      rw [inv.pjSeen sp c nc d o nd hc hm hnd hkd]; exact hf
+
 /-- I7, derived: a projection all of whose recorded firewalls are settled is `Solid` -/
-theorem Inv.proj_solid {p : Program} {s : St} (inv : Inv p s) {z : Key} {n : Node}
-    (hz : s.nodes z = some n) (hk : n.kind = .projection)
-    (hall : ∀ f, f ∈ n.tfc → settledFw s f = true) : Solid s z := by
-  have dep : ∀ d o, (d, o) ∈ n.deps → ∃ nd, s.nodes d = some nd ∧ nd.kind = .firewall ∧
-      nd.lastVerified = s.epoch ∧ nd.pendingBP = false := by
-    intro d o hm
-    obtain ⟨_, nd, hnd⟩ := inv.down z n hz d o hm
-    have hkd := inv.pjFw z n hz hk d o nd hm hnd
-    obtain ⟨nf, hnf, hv, hp⟩ := settledFw_iff.1 (hall d ((inv.seenSub z n hz d o nd hm hnd).1 hkd))
-    rw [hnd] at hnf; cases hnf
-    exact ⟨nd, hnd, hkd, hv, hp⟩
-  refine Solid.mk z n hz (fun h => by rw [hk] at h; cases h) (fun _ => Or.inr ?_) ?_ ?_
-  · intro d o hm
-    obtain ⟨nd, hnd, _, _, hp⟩ := dep d o hm
-    rw [hasPending_of_node hnd]; exact hp
-  · intro d o hm
-    obtain ⟨nd, hnd, hkd, _, hp⟩ := dep d o hm
-    refine ⟨nd, hnd, ?_, fun h => absurd hkd h⟩
-    false_or_by_contra
-    rename_i hne
-    have := inv.pjBroken z n hz hk d o nd hm hnd hne
-    rw [hp] at this; cases this
-  · intro d o hm
-    obtain ⟨nd, hnd, _, hv, _⟩ := dep d o hm
-    exact inv.solid d nd hnd hv
+theorem Inv.proj_solid {p : Program} {s : St} (inv : Inv p s) (sh : Shape p) :
+    ∀ z n, s.nodes z = some n → n.kind = .projection →
+      (∀ f, f ∈ n.tfc → settledFw s f = true) → Solid s z := by
+  intro z
+  induction z using Nat.strongRecOn with
+  | _ z ih =>
+    intro n hz hk hall
+    -- every recorded callee: not pending, current observation, `Solid`
+    have dep : ∀ d o, (d, o) ∈ n.deps → ∃ nd, s.nodes d = some nd ∧ nd.pendingBP = false ∧
+        (nd.kind ≠ .firewall → nd.tfc = n.seen d) ∧ Solid s d := by
+      intro d o hm
+      obtain ⟨hlt, nd, hnd⟩ := inv.down z n hz d o hm
+      obtain ⟨sfw, spj⟩ := inv.seenSub z n hz d o nd hm hnd
+      have fwCase : nd.kind = .firewall → ∃ nd, s.nodes d = some nd ∧ nd.pendingBP = false ∧
+          (nd.kind ≠ .firewall → nd.tfc = n.seen d) ∧ Solid s d := by
+        intro hkd
+        obtain ⟨nf, hnf, hv, hp⟩ := settledFw_iff.1 (hall d (sfw hkd))
+        rw [hnd] at hnf; cases hnf
+        exact ⟨nd, hnd, hp, fun h => absurd hkd h, inv.solid d nd hnd hv⟩
+      rcases sh with pa | sp
+      · exact fwCase (inv.pjFw pa z n hz hk d o nd hm hnd)
+      · rcases inv.pjKinds z n hz hk d o nd hm hnd with hkd | hkd
+        · exact fwCase hkd
+        · have hseen := inv.pjSeen sp z n d o nd hz hm hnd hkd
+          have hsub : ∀ f, f ∈ nd.tfc → settledFw s f = true := fun f hf =>
+            hall f (spj (Or.inr hkd) f (by rw [hseen]; exact hf))
+          have hnp : nd.pendingBP = false := by
+            cases hp : nd.pendingBP with
+            | false => rfl
+            | true =>
+              obtain ⟨f, nf, hf, hnf, hpf⟩ := inv.pend_witness sp d nd hnd hkd hp
+              obtain ⟨nf', hnf', _, hpf'⟩ := settledFw_iff.1 (hsub f hf)
+              rw [hnf] at hnf'; cases hnf'
+              rw [hpf] at hpf'; cases hpf'
+          exact ⟨nd, hnd, hnp, fun _ => hseen.symm, ih d hlt nd hnd hkd hsub⟩
+    refine Solid.mk z n hz (fun h => by rw [hk] at h; cases h) (fun _ => Or.inr ?_) ?_ ?_
+    · intro d o hm
+      obtain ⟨nd, hnd, hp, _⟩ := dep d o hm
+      rw [hasPending_of_node hnd]; exact hp
+    · intro d o hm
+      obtain ⟨nd, hnd, hp, hacc, _⟩ := dep d o hm
+      refine ⟨nd, hnd, ?_, hacc⟩
+      false_or_by_contra
+      rename_i hne
+      have := inv.pjBroken z n hz hk d o nd hm hnd hne
+      rw [hp] at this; cases this
+    · intro d o hm
+      obtain ⟨_, _, _, _, hs⟩ := dep d o hm
+      exact hs
 
 /-- an `NGood` normal node all of whose recorded firewalls are settled is `Solid` -/
-theorem NGood.solid_of_settled {p : Program} {s : St} (inv : Inv p s) {k : Key} (h : NGood s k) :
+theorem NGood.solid_of_settled {p : Program} {s : St} (inv : Inv p s) (sh : Shape p) {k : Key}
+    (h : NGood s k) :
     ∀ n, s.nodes k = some n → n.kind = .normal → (∀ f, f ∈ n.tfc → settledFw s f = true) → Solid s k := by
   induction h with
   | mk k n hk hval hsub ih =>
@@ -342,7 +406,7 @@ theorem NGood.solid_of_settled {p : Program} {s : St} (inv : Inv p s) {k : Key} 
       rw [hacc (by rw [hkn]; decide)] at hf
       exact hall f (snm (Or.inl hkn) f hf)
     | projection =>
-      refine inv.proj_solid hnd hkn ?_
+      refine inv.proj_solid sh d nd hnd hkn ?_
       intro f hf
       rw [hacc (by rw [hkn]; decide)] at hf
       exact hall f (snm (Or.inr hkn) f hf)
